@@ -644,6 +644,17 @@ class SMCSamples(BaseSamples):
     log_evidence_error: float | None = None
     """Log evidence error estimate for the current samples."""
 
+    def to_namespace(self, xp, dtype: Any | str | None = None):
+        samples = super().to_namespace(xp, dtype=dtype)
+        # The base class only knows about the per-sample fields
+        samples.beta = self.beta
+        for name in ("log_evidence", "log_evidence_error"):
+            value = getattr(self, name)
+            if value is not None and not isinstance(value, (int, float)):
+                value = samples.array_to_namespace(value)
+            setattr(samples, name, value)
+        return samples
+
     def log_p_t(self, beta):
         log_p_T = self.log_likelihood + self.log_prior
         return (1 - beta) * self.log_q + beta * log_p_T
